@@ -37,12 +37,17 @@ def gen(rnd):
     feature = rnd.choice(["none", "none", "offdiag", "offdiag", "offdiag-unknown", "zero-diagonal", "fd-blocks", "fd-dict-ok", "fd-asymmetric", "fd-not-array",
                           "fd-degenerate", "fd-bare", "not-orthonormal", "pairs", "custom-solver", "custom-solver+fd", "legacy-solver",
                           "shared-eigenvalue", "shared-eigenvalue-rounding", "nonhermitian-symbolic-term", "implicit-fd-last", "kpm-nonhermitian",
-                          "shared-eigenvalue-second-order", "fd-dict-multi", "fd-dict-multi", "nonhermitian-symbolic-term-2nd-quant", "not-orthonormal-across-subspaces"])
+                          "shared-eigenvalue-second-order", "fd-dict-multi", "fd-dict-multi", "nonhermitian-symbolic-term-2nd-quant", "not-orthonormal-across-subspaces",
+                          "shared-eigenvalue-uncoupled-at-first-order"])
     cfg["feature"] = feature
     if feature == "shared-eigenvalue-second-order":
         # two blocks that share an energy and are coupled only through a third one: their coupling first appears at second order
         cfg["sizes"] = sizes = [rnd.randint(1, 2) for _ in range(3)]; N = 3
         if desig == "implicit": cfg["designation"] = "indices"
+    if feature == "shared-eigenvalue-uncoupled-at-first-order":
+        # two coupled blocks share an energy; the perturbation has an exact zero between the two degenerate states, which couple at second order
+        cfg["sizes"] = sizes = [2, 2] + sizes[2:]; N = len(sizes)
+        if desig == "implicit": cfg["designation"] = desig = "indices"
     if feature == "not-orthonormal-across-subspaces":
         # every subspace orthonormal by itself, a vector of one with a component along a zero-energy vector of another: H_0 still looks block diagonal
         if N < 2: cfg["sizes"] = sizes = [1, 2]; N = 2
@@ -93,6 +98,9 @@ def build(cfg, rnd):
         for c in range(d):
             if c not in (a, b) and abs(H0[c, c] - 0.3) < 1: H0[c, c] += 5
     if feature == "not-orthonormal-across-subspaces": H0[off[1], off[1]] = 0.0
+    if feature == "shared-eigenvalue-uncoupled-at-first-order":
+        a, b = off[0], off[1]; H0[b, b] = H0[a, a]; late = "shared-uncoupled"
+        for (i, j, v) in ((a, b, 0.0), (a, a + 1, 1.0), (a + 1, b, 1.0), (a, b + 1, 1.0), (b + 1, b, 2.0)): H1[i, j] = H1[j, i] = v
     if feature == "shared-eigenvalue-second-order":
         a, m_, b = off[0], off[1], off[2]; H0[b, b] = H0[a, a]
         for i in range(off[0], off[1]):
@@ -155,6 +163,11 @@ def build(cfg, rnd):
         if feature == "not-orthonormal-across-subspaces":
             use = [np.array(u, dtype=float) for u in use]; b0 = off[1]                        # first state of the second subspace, given zero energy
             v = use[0][:, 0] + 0.6 * eye[:, b0]; use[0][:, 0] = v / np.linalg.norm(v); facts["biorthonormal"] = False
+        # (implicit mode with a solver of the caller's and sparse vectors is outside the documented inputs: the projector needs arrays)
+        if carrier == "sparse" and rnd.random() < 0.6 and not (desig == "implicit" and feature in ("custom-solver", "custom-solver+fd", "legacy-solver")):      # the eigenvectors in the carrier of the Hamiltonian: sparse arrays or legacy sparse matrices
+            cv = sparse.csr_array if rnd.random() < 0.5 else sparse.csr_matrix
+            use = [tuple(cv(np.asarray(w)) for w in u) if isinstance(u, tuple) else cv(np.asarray(u)) for u in use]; cfg["sparse_vectors"] = cv.__name__
+            if desig == "implicit": facts["array_vectors"] = False      # (implicit mode asks for NumPy arrays: TypeError)
         kw["subspace_eigenvectors"] = use
         if desig == "implicit":
             if feature == "implicit-fd-last": kw["fully_diagonalize"] = (N - 1,); facts["fd"] = {"kind": "blocks", "blocks": [N - 1]}
@@ -220,13 +233,16 @@ def main(seed, ncases, driver, out):
         if late == "shared2" and first_err is None:
             try: U[0, 2, 2]
             except Exception as e: first_err = e
+        if late == "shared-uncoupled" and first_err is None:      # the first element that needs the division by the vanishing energy difference
+            try: U[0, 1, 2]
+            except Exception as e: first_err = e
         if late is not None:
             if first_err is None: failures.append(dict(desc, kind="ill-posed-input-answered", expected=f"ValueError at first need ({late})"))
             elif not isinstance(first_err, ValueError): failures.append(dict(desc, kind="wrong-exception-type", error=type(first_err).__name__ + ": " + str(first_err)[:120]))
-            elif late == "shared2":
+            elif late in ("shared2", "shared-uncoupled"):
                 answered = []
                 for (S, nm) in ((U, "U"), (Ud, "U_inv")):
-                    for idx in ((0, 2, 2), (2, 0, 2)):
+                    for idx in (((0, 2, 2), (2, 0, 2)) if late == "shared2" else ((0, 1, 2), (1, 0, 2))):
                         try: S[idx]; answered.append(nm + str(list(idx)))
                         except Exception: pass
                 if answered: failures.append(dict(desc, kind="ill-posed-input-answered-after-a-rejected-request", answered=answered))
